@@ -38,7 +38,7 @@ Interval ==
     \A p \in Window :
       LET want == /\ (IsNone(hist.from) \/ Ord(hist.from) <= Ord(p))
                   /\ (IsNone(hist.to) \/ Ord(p) <= Ord(hist.to))
-      IN Contains(dFilt[1], p) = want /\ ImplContains(dFilt[1], p) = want
+      IN FContains(dFilt[1], p) = want /\ ImplContains(dFilt[1], p) = want
 
 FailRule == \A f \in Opt, t \in Opt :
               IsFail(FilterBuildRef(f, t)) <=> (~IsNone(f) /\ ~IsNone(t) /\ Ord(f) > Ord(t))
